@@ -113,6 +113,18 @@ fn oracle_docs(rep: &mut Report, ex: &mut Expat, rng: &mut Rng, n: usize) {
         }
         attrs.push_str(&format!(" {} {}", in_attr(rng, "text-loc", loc), in_attr(rng, "text-offset", &fstr_ref(off))));
         if outside_cls { attrs.push_str(" class=\"d-text-outside\""); }
+        // further text-specific attributes: all must move off the shape; text-dxy / -dx / -dy shift the anchor
+        let (mut tdx, mut tdy) = (0.0f64, 0.0f64);
+        if rng.chance(1, 3) { let v = *rng.pick(&["1", "1.5", "2", "0.75"]); attrs.push_str(&format!(" {}", in_attr(rng, "text-lsp", v))); st.tally("extra=text-lsp"); }
+        if rng.chance(1, 4) {
+            let (a, b2) = (rng.range(-6, 6) as f64 / 2.0, rng.range(-6, 6) as f64 / 2.0);
+            attrs.push_str(&format!(" {}", in_attr(rng, "text-dxy", &format!("{} {}", fstr_ref(a), fstr_ref(b2)))));
+            tdx = a; tdy = b2;
+            st.tally("extra=text-dxy");
+        }
+        if rng.chance(1, 6) { let a = rng.range(-6, 6) as f64 / 2.0; attrs.push_str(&format!(" {}", in_attr(rng, "text-dx", &fstr_ref(a)))); tdx = a; st.tally("extra=text-dx"); }
+        if rng.chance(1, 6) { let a = rng.range(-6, 6) as f64 / 2.0; attrs.push_str(&format!(" {}", in_attr(rng, "text-dy", &fstr_ref(a)))); tdy = a; st.tally("extra=text-dy"); }
+        if rng.chance(1, 5) { attrs.push_str(&format!(" {}", in_attr(rng, "text-style", "font-style: italic"))); st.tally("extra=text-style"); }
         let content_text = lines.join("\n");
         let el = match carrier {
             "attr" => format!("<{name}{attrs} {}/>", in_attr(rng, "text", &attr_text)),
@@ -171,6 +183,8 @@ fn oracle_docs(rep: &mut Report, ex: &mut Expat, rng: &mut Rng, n: usize) {
         if loc.contains('b') && loc != "b" || loc == "b" { if loc.starts_with('b') { ex_y -= sgn * off; } }
         if loc.ends_with('l') && loc != "l" || loc == "l" { ex_x += sgn * off; }
         if loc.ends_with('r') && loc != "r" || loc == "r" { ex_x -= sgn * off; }
+        ex_x += tdx;
+        ex_y += tdy;
         let gx = text_attrs.iter().find(|(k, _)| k == "x").and_then(|(_, v)| v.parse::<f64>().ok());
         let gy = text_attrs.iter().find(|(k, _)| k == "y").and_then(|(_, v)| v.parse::<f64>().ok());
         match (gx, gy) {
